@@ -641,3 +641,77 @@ Lemma eq0_is_term n : eq0 (Z.of_nat (arity n)) = is_term n.
 Proof. unfold eq0, is_term. destruct (0 =? Z.of_nat (arity n)) eqn:E; destruct (Nat.eqb (arity n) 0) eqn:E2; lia. Qed.
 Lemma lt0_is_prim n : lt0 (Z.of_nat (arity n)) = is_prim n.
 Proof. unfold lt0, is_prim. destruct (0 <? Z.of_nat (arity n)) eqn:E; destruct (0 <? arity n)%nat eqn:E2; lia. Qed.
+
+(* ------------------------------------------------------------------ loops that collect the elements passing a test *)
+Lemma for_each_filter_append {A B} (p : A -> bool) (f : A -> B) (body : A -> list B -> M (list B)) :
+  (forall x s ds, body x s ds = ret (if p x then s ++ [f x] else s) ds) ->
+  forall l s ds, for_each l body s ds = ret (s ++ map f (filter p l)) ds.
+Proof.
+  intro H. induction l as [|x r IH]; intros s ds; cbn [for_each filter map].
+  - now rewrite app_nil_r.
+  - unfold bind. rewrite H. unfold ret at 1. rewrite IH. destruct (p x); cbn [map]; [|reflexivity].
+    now rewrite <- app_assoc.
+Qed.
+
+Lemma is_primitive_mem n : is_primitive n && mem_ty (nret n) (nargs n) = mem_ty (nret n) (nargs n).
+Proof.
+  unfold is_primitive, arity. destruct (nargs n) as [|a r]; [reflexivity|]. cbn [length Nat.eqb negb andb]. reflexivity.
+Qed.
+
+Lemma range1_length (k : nat) : length (range1 (Z.of_nat k)) = k.
+Proof.
+  unfold range1, py_range3, range_count. cbn [Z.ltb Z.compare]. rewrite map_length, seq_length.
+  destruct (0 <? Z.of_nat k) eqn:E; [rewrite Z.div_1_r|]; lia.
+Qed.
+
+(* ------------------------------------------------------------------ mutShrink: the walk over the arguments *)
+Fixpoint walk2 (l : list node) (rindex : nat) (k : nat) (o : option (list node)) : res (nat * option (list node)) :=
+  match k with
+  | O => Ok (rindex, o)
+  | S k' =>
+    match search_subtree l rindex with
+    | Err e => Err e
+    | Ok (b, e) => let s := get_slice l b e in walk2 l (rindex + length s) k' (Some s)
+    end
+  end.
+
+Definition from_opt {A} (d : A) (o : option A) : A := match o with Some x => x | None => d end.
+
+Lemma shrink_walk_walk2 l : forall k r o s0,
+  shrink_walk l r k (from_opt s0 o) = res_map (fun p => from_opt s0 (snd p)) (walk2 l r k o).
+Proof.
+  induction k as [|k IH]; intros r o s0; cbn [shrink_walk walk2]; [reflexivity|].
+  destruct (search_subtree l r) as [[b e]|]; [|reflexivity].
+  cbv zeta. exact (IH _ (Some (get_slice l b e)) s0).
+Qed.
+
+Lemma walk2_some l : forall k r o r' o', walk2 l r (S k) o = Ok (r', o') -> exists s, o' = Some s.
+Proof.
+  induction k as [|k IH]; intros r o r' o'; cbn [walk2].
+  - destruct (search_subtree l r) as [[b e]|]; [|discriminate]. cbv zeta. intro H; inversion H; eauto.
+  - destruct (search_subtree l r) as [[b e]|]; [|discriminate]. cbv zeta. apply (IH _ (Some (get_slice l b e))).
+Qed.
+
+Section ForWalk.
+  Variable l : list node.
+  Let state := (Z * option (list node))%type.
+  Variable body : Z -> state -> M state.
+  Hypothesis Hbody : forall x r o ds,
+    body x (Z.of_nat r, o) ds =
+    match search_subtree l r with
+    | Err e => Err e
+    | Ok (b, e) => Ok ((Z.of_nat (r + length (get_slice l b e)), Some (get_slice l b e)), ds)
+    end.
+  Lemma for_walk : forall xs r o ds,
+    for_each xs body (Z.of_nat r, o) ds =
+    lift (res_map (fun p => (Z.of_nat (fst p), snd p)) (walk2 l r (length xs) o)) ds.
+  Proof.
+    induction xs as [|x xs IH]; intros r o ds; cbn [for_each length walk2]; [reflexivity|].
+    unfold bind. rewrite Hbody. destruct (search_subtree l r) as [[b e]|]; [|reflexivity].
+    cbv zeta. apply IH.
+  Qed.
+End ForWalk.
+
+Lemma shrink_walk_walk2_nil l r k :
+  shrink_walk l r k [] = res_map (fun p => from_opt [] (snd p)) (walk2 l r k None).
+Proof. exact (shrink_walk_walk2 l k r None []). Qed.
